@@ -240,6 +240,8 @@ type Ctl struct {
 
 	// PlainReaders: Get returns readers that implement only Read and Close
 	PlainReaders bool
+	// ReadChunk > 0: such readers deliver at most that many bytes per Read call
+	ReadChunk int
 
 	Gate *Gate // nil: calls run freely
 
@@ -522,17 +524,25 @@ func (v *View) Get(_ context.Context, key string) (io.ReadCloser, error) {
 		e.Data = o.data
 	}
 	v.emit(e)
-	if v.C != nil && v.C.PlainReaders {
-		return plainReadCloser{r: bytes.NewReader(append([]byte(nil), o.data...))}, nil
+	if v.C != nil && (v.C.PlainReaders || v.C.ReadChunk > 0) {
+		return plainReadCloser{r: bytes.NewReader(append([]byte(nil), o.data...)), chunk: v.C.ReadChunk}, nil
 	}
 	return memReader{bytes.NewReader(append([]byte(nil), o.data...))}, nil
 }
 
 // plainReadCloser is a reader with nothing but Read and Close (no io.WriterTo, io.Seeker, Len):
 // consumers have to copy through their own buffers.
-type plainReadCloser struct{ r io.Reader }
+type plainReadCloser struct {
+	r     io.Reader
+	chunk int // > 0: at most that many bytes per Read (a network-style reader)
+}
 
-func (p plainReadCloser) Read(b []byte) (int, error) { return p.r.Read(b) }
+func (p plainReadCloser) Read(b []byte) (int, error) {
+	if p.chunk > 0 && len(b) > p.chunk {
+		b = b[:p.chunk]
+	}
+	return p.r.Read(b)
+}
 func (plainReadCloser) Close() error                 { return nil }
 
 type atReader struct {
